@@ -239,6 +239,7 @@ func smallAlphabet() []avlh.Op {
 	for v := 0; v < 3; v++ {
 		a = append(a, avlh.Op{K: "Remove", H: 0, V: v})
 	}
+	a = append(a, avlh.Op{K: "Clear", H: 0})
 	a = append(a, avlh.Op{K: "Clone", H: 0}, avlh.Op{K: "Add", H: 1, V: 1}, avlh.Op{K: "Remove", H: 1, V: 1})
 	return a
 }
@@ -246,7 +247,7 @@ func smallAlphabet() []avlh.Op {
 func run(c *core.Ctx) {
 	// 1. exhaustive: every sequence of length L over the small alphabet, observed after every op
 	alpha := smallAlphabet()
-	L := c.N(4, 5, 6)
+	L := c.N(4, 5, 5) // 10^L histories; the search tier keeps 5 so that one search run stays well inside the time bin/check allows it
 	idx := make([]int, L)
 	count := 0
 	for {
@@ -254,6 +255,9 @@ func run(c *core.Ctx) {
 		for _, i := range idx {
 			o := alpha[i]
 			ops = append(ops, o, avlh.Op{K: "In", H: o.H}, avlh.Op{K: "Len", H: o.H})
+			for v := 0; v < 3; v++ { // Contains in the middle of the history, not only at its end
+				ops = append(ops, avlh.Op{K: "Contains", H: o.H, V: v})
+			}
 		}
 		for h := 0; h < 2; h++ {
 			ops = append(ops, avlh.Op{K: "Pre", H: h}, avlh.Op{K: "Post", H: h}, avlh.Op{K: "In", H: h})
@@ -277,7 +281,7 @@ func run(c *core.Ctx) {
 		}
 	}
 	c.Exhaustive = true
-	c.Note(fmt.Sprintf("exhaustive: all %d histories of %d mutating ops over {Add,Remove}x{0,1,2} on handle 0, Clone 0, Add/Remove 1 on handle 1 (bad handle before the Clone), each op followed by In+Len, full observation at the end; plus structured random histories", count, L))
+	c.Note(fmt.Sprintf("exhaustive: all %d histories of %d mutating ops over {Add,Remove}x{0,1,2} on handle 0, Clear 0, Clone 0, Add/Remove 1 on handle 1 (bad handle before the Clone), each op followed by In+Len+Contains 0,1,2, full observation at the end; plus structured random histories", count, L))
 
 	// 2. structured random histories; most short, a few long
 	n := c.N(2400, 40000, 60000)
@@ -592,7 +596,7 @@ func exec(c *core.Ctx, cs Case) {
 		// facts about the state before the op, for the non-triviality rule
 		if valid && o.K == "Remove" {
 			if containsInt(ref[o.H], o.V) {
-				if two, depth := removesTwoChildrenNode(ts.Root(o.H), o.V); two {
+				if two, depth := removesTwoChildrenNode(c, ts.Root(o.H), o.V); two {
 					twoCh = true
 					c.Count("remove_two_children")
 					if depth >= 4 && len(ref[o.H]) >= 256 {
@@ -686,8 +690,9 @@ func exec(c *core.Ctx, cs Case) {
 				sizeHits[sz]++
 				full = true
 			}
-			if work > 300000 { // bound on the probing work of one case
-				full = false
+			if full && work > 300000 { // bound on the probing work of one case: the intermediate full reads thin out
+				full = false // (cheap checks still run after every op, and the full read at the end of the case always runs)
+				c.Count("intermediate_full_read_dropped_by_work_bound")
 			}
 			// cheap checks after every mutating op
 			if lo := ts.Exec(avlh.Op{K: "Len", H: h}); lo.Kind != "int" || lo.I != sz {
@@ -786,14 +791,90 @@ func probe(c *core.Ctx, ts avlh.Trees, g int, want []int, elem string, probeVals
 			return s, fmt.Sprintf("Contains(%d) = %v", v, o.B)
 		}
 	}
-	budget := 400000 + 60*len(s.in)
-	switch oneTree(s.pre, s.in, s.post, &budget) {
+	// "three traversals of one and the same binary tree": search for a binary tree having the three walks
+	// (black box). If the search gives up (budget), fall back on a witness: the node structure of the real
+	// tree, read by reflection, is such a tree if it lists exactly the three walks. Neither -> Unobservable.
+	verdict := 2
+	if c.Stats["one_tree_search_gave_up"] < 20 { // a run in which the search keeps giving up stops paying for it
+		budget0 := oneTreeBudget(len(s.in))
+		budget := budget0
+		verdict = oneTree(s.pre, s.in, s.post, &budget)
+		if used := (budget0 - budget) / (budget0/1000000 + 1); used > c.Stats["one_tree_budget_used_max_ppm"] {
+			c.Stats["one_tree_budget_used_max_ppm"] = used // how close the search came to giving up (statistic)
+		}
+		if verdict == 2 {
+			c.Count("one_tree_search_gave_up")
+		}
+	}
+	switch verdict {
 	case 0:
 		return s, fmt.Sprintf("pre %s, in %s, post %s are not three traversals of one binary tree", brief(s.pre), brief(s.in), brief(s.post))
+	case 1:
+		c.Count("one_tree_check_by_search")
 	case 2:
-		c.Count("one_tree_check_skipped")
+		if nodeStructureHasWalks(ts.Root(g), s.pre, s.in, s.post) {
+			c.Count("one_tree_check_by_node_structure")
+		} else {
+			// this oracle did not observe whether the walks are traversals of one tree. Never silent
+			// (bin/check reports a broken correspondence); it does not happen on the unchanged tree.
+			c.Unobservable("C01 one-tree oracle: the search for a binary tree having the three observed walks gave up (budget) and the node structure " +
+				"read by reflection does not list these walks either; the clause 'pre-, in- and post-order are three traversals of one tree' was not checked on some tree")
+		}
 	}
 	return s, ""
+}
+
+// oneTreeBudget bounds the work of oneTree on walks of n values (about 3 ns per unit). On the trees the unchanged
+// code builds the memoised search needs a small fraction of it even with 3 distinct values among 4000
+// (statistic one_tree_budget_used_max_ppm, parts per million); giving up is never silent (see probe).
+func oneTreeBudget(n int) int { return 50000000 + 10000*n }
+
+// nodeStructureHasWalks: do the nodes of the tree, read by reflection (read-only), list exactly the three given
+// walks? Then the walks are traversals of one binary tree (this one). false also if the fields cannot be read.
+func nodeStructureHasWalks(tree any, pre, in, post []int) (ok bool) {
+	defer func() {
+		if recover() != nil {
+			ok = false
+		}
+	}()
+	pi, ii, oi := 0, 0, 0
+	match := true
+	var walk func(p reflect.Value)
+	walk = func(p reflect.Value) {
+		if !match || p.IsNil() {
+			return
+		}
+		n := p.Elem()
+		ix := nodeFields(n.Type())
+		x := nodeValue(n.Field(ix.value))
+		if pi >= len(pre) || pre[pi] != x {
+			match = false
+			return
+		}
+		pi++
+		walk(n.Field(ix.left))
+		if !match || ii >= len(in) || in[ii] != x {
+			match = false
+			return
+		}
+		ii++
+		walk(n.Field(ix.right))
+		if !match || oi >= len(post) || post[oi] != x {
+			match = false
+			return
+		}
+		oi++
+	}
+	walk(reflect.ValueOf(tree).Elem().FieldByName("root"))
+	return match && pi == len(pre) && ii == len(in) && oi == len(post)
+}
+
+// nodeValue decodes an element read by reflection: an int, or a Pair through the inverse of avlh's pairOf.
+func nodeValue(val reflect.Value) int {
+	if val.Kind() == reflect.Struct {
+		return int(val.Field(0).Int())<<2 | int(val.Field(1).Int())
+	}
+	return int(val.Int())
 }
 
 // oneTree: is there a binary tree whose pre-, in- and post-order walks are the
@@ -803,15 +884,32 @@ func probe(c *core.Ctx, ts avlh.Trees, g int, want []int, elem string, probeVals
 // values equal to it, and is further confined by: the left part of pre and of
 // post (k values) holds every smaller value and no larger one. With distinct
 // values k is unique (reconstruction from pre+in); with duplicates every
-// remaining candidate is tried.
+// remaining candidate is tried. A sub-problem is determined by its offsets in
+// the three sequences and its length; as soon as some node has more than one
+// candidate the results of sub-problems are memoised, which keeps the search
+// polynomial (without it, nested ambiguities multiply).
 func oneTree(pre, in, post []int, budget *int) int {
 	n := len(in)
 	if len(pre) != n || len(post) != n {
 		return 0
 	}
+	s := &oneTreeSearch{pre: pre, in: in, post: post, budget: *budget}
+	r := s.rec(0, 0, 0, n)
+	*budget = s.budget
+	return r
+}
+
+type oneTreeSearch struct {
+	pre, in, post []int
+	budget        int
+	memo          map[[4]int32]int8 // (offset in pre, in in, in post, length) -> 0 | 1
+}
+
+func (s *oneTreeSearch) rec(p, i, q, n int) int {
 	if n == 0 {
 		return 1
 	}
+	pre, in, post := s.pre[p:p+n], s.in[i:i+n], s.post[q:q+n]
 	root := pre[0]
 	if post[n-1] != root {
 		return 0
@@ -819,8 +917,14 @@ func oneTree(pre, in, post []int, budget *int) int {
 	if in[0] == in[n-1] { // one value only: every shape lists the same three sequences
 		return 1
 	}
-	*budget -= n
-	if *budget < 0 {
+	key := [4]int32{int32(p), int32(i), int32(q), int32(n)}
+	if s.memo != nil {
+		if r, ok := s.memo[key]; ok {
+			return int(r)
+		}
+	}
+	s.budget -= n
+	if s.budget < 0 {
 		return 2
 	}
 	lo := sort.SearchInts(in, root)
@@ -841,24 +945,31 @@ func oneTree(pre, in, post []int, budget *int) int {
 	}
 	bound(pre[1:])
 	bound(post[:n-1])
-	gaveUp := false
+	if kmax > kmin && s.memo == nil {
+		s.memo = map[[4]int32]int8{}
+	}
+	res, gaveUp := 0, false
 	for k := kmin; k <= kmax; k++ {
-		l := oneTree(pre[1:1+k], in[:k], post[:k], budget)
+		l := s.rec(p+1, i, q, k)
 		if l == 0 {
 			continue
 		}
-		r := oneTree(pre[1+k:], in[k+1:], post[k:n-1], budget)
+		r := s.rec(p+1+k, i+k+1, q+k, n-1-k)
 		if l == 1 && r == 1 {
-			return 1
+			res = 1
+			break
 		}
 		if l == 2 || r == 2 {
 			gaveUp = true
 		}
 	}
-	if gaveUp {
+	if res == 0 && gaveUp {
 		return 2
 	}
-	return 0
+	if s.memo != nil {
+		s.memo[key] = int8(res)
+	}
+	return res
 }
 
 // nodeFields caches the field indices of a node struct type (FieldByName is slow).
@@ -886,11 +997,15 @@ func nodeFields(t reflect.Type) nodeIdx {
 // neither inside one handle (cycle / shared subtree) nor from two handles (a clone sharing nodes).
 func disjointTrees(c *core.Ctx, ts avlh.Trees, n int) (msg string) {
 	defer func() {
-		if recover() != nil {
-			c.Count("structure_probe_unavailable")
+		if r := recover(); r != nil {
+			// the private fields root / left / right were not found (renamed, retyped): the "shares no state"
+			// clause is not observed by this probe any more. Never silent.
+			c.Unobservable(fmt.Sprintf("C01 node-disjointness probe (reflection on avl.Tree.root, node.left, node.right: 'Clone shares no state', "+
+				"'a handle is a tree, not a DAG/cycle') could not read the node structure: %v", r))
 			msg = ""
 		}
 	}()
+	c.Count("disjointness_probe_ran")
 	owner := map[uintptr]int{}
 	for g := 0; g < n; g++ {
 		stack := []reflect.Value{reflect.ValueOf(ts.Root(g)).Elem().FieldByName("root")}
@@ -918,10 +1033,13 @@ func disjointTrees(c *core.Ctx, ts avlh.Trees, n int) (msg string) {
 
 // removesTwoChildrenNode looks (by reflection, read-only) at the node that
 // node.remove would delete for value v: the first node with that value on the
-// comparator-directed descent. Statistics only.
-func removesTwoChildrenNode(tree any, v int) (two bool, depth int) {
+// comparator-directed descent. Used for the non-triviality rule only (not an oracle); a failure to read the fields is reported.
+func removesTwoChildrenNode(c *core.Ctx, tree any, v int) (two bool, depth int) {
 	defer func() {
-		if recover() != nil {
+		if r := recover(); r != nil {
+			// the non-triviality rule (a Remove of a node with two children) can no longer be measured
+			c.Unobservable(fmt.Sprintf("C01 non-triviality probe (reflection on node.value/left/right: does this Remove delete a node with two children) "+
+				"could not read the node structure: %v", r))
 			two = false
 		}
 	}()
@@ -929,13 +1047,7 @@ func removesTwoChildrenNode(tree any, v int) (two bool, depth int) {
 	for !cur.IsNil() {
 		n := cur.Elem()
 		ix := nodeFields(n.Type())
-		val := n.Field(ix.value)
-		var x int
-		if val.Kind() == reflect.Struct {
-			x = int(val.Field(0).Int())<<2 | int(val.Field(1).Int())
-		} else {
-			x = int(val.Int())
-		}
+		x := nodeValue(n.Field(ix.value))
 		l, r := n.Field(ix.left), n.Field(ix.right)
 		switch {
 		case x == v:
